@@ -68,6 +68,7 @@ let table : (string * (z list -> z)) list = [
   ("threads", judge_threads);
   ("equimod", judge_equimod);
   ("matutil", judge_matutil);
+  ("edgelist", judge_edgelist);
 ]
 
 let () =
